@@ -305,6 +305,34 @@ inductive HandlerRet where
 def extractVersions (objs : List Obj) : List Ver :=
   objs.foldl (fun acc o => if acc.contains o.ver then acc else acc ++ [o.ver]) []
 
+/-- one element of `convertedObjects` as `json.Unmarshal(obj.Raw, &a)` sees it: `null` (the raw bytes
+are empty, `Unmarshal` fails and the error is dropped) or a JSON object with or without an
+`apiVersion` key (`id` = the number in its `metadata.name`, 0 = it has none, e.g. `{}`) -/
+inductive RawObj where
+  | null
+  | obj (id : Nat) (apiVersion : Option Ver)
+  deriving DecidableEq, Repr
+
+/-- `json.Unmarshal(raw, &a)` on the `APIVersion` field of a `TypeMeta` that holds `a`: a failed decode
+and an absent key both leave the field as it was -/
+def unmarshalVer (a : Ver) : RawObj → Ver
+  | .null => a
+  | .obj _ none => a
+  | .obj _ (some v) => v
+
+/-- `ExtractAPIVersions` on the raw objects, as written: `var a metav1.TypeMeta` is declared inside
+the loop, every object is decoded into a zero value -/
+def extractVersionsRaw (objs : List RawObj) : List Ver :=
+  objs.foldl (fun acc o =>
+    let a := unmarshalVer [] o
+    if acc.contains a then acc else acc ++ [a]) []
+
+/-- the object the rest of the model computes with: `null`, `{}` and an object without `apiVersion`
+are at the empty version (`Props/C15.extractVersionsRaw_eq`) -/
+def RawObj.decode : RawObj → Obj
+  | .null => ⟨0, []⟩
+  | .obj id v => ⟨id, v.getD []⟩
+
 inductive PathEnd where
   | done                   -- `done = true; break`
   | exhausted              -- the inner `for` ran out of rules
@@ -391,8 +419,10 @@ happened, `reply` = the ConversionReview result). `none` = the property holds:
 * the runs serve declared rules, in chain order starting at the source version `a`;
 * each run receives the previous output; no run after a failed one;
 * `Success` only if there was a run, every run succeeded, the objects are the last output, there are as
-  many as requested, and the chain was walked to the desired version (or the last output already
-  consists of objects of exactly the desired apiVersion — the early exit of the handler);
+  many as requested, the chain was walked to the desired version (or the last output already
+  consists of objects of exactly the desired apiVersion — the early exit of the handler), and every
+  returned object, one by one, is at the desired apiVersion (a step that hands back `null`, `{}`, an
+  object without apiVersion or an object left at an older version in any position has not succeeded);
 * when the failing run gave its own message, `Failed` carries that message. -/
 def applyCheck (rules : List Rule) (desired : Ver) (objs : List Obj) (script : Script)
     (inv : List Invocation) (reply : Reply) : Option String :=
@@ -415,6 +445,8 @@ def applyCheck (rules : List Rule) (desired : Ver) (objs : List Obj) (script : S
             else if robjs.length ≠ objs.length then some "success-with-a-wrong-number-of-objects"
             else if !(versionsMatched (endOf a walk) desired) && extractVersions out ≠ [desired] then
               some "success-before-the-chain-reached-the-desired-version"
+            else if !(robjs.all (fun o => o.ver == desired)) then
+              some "success-though-a-returned-object-is-not-at-the-desired-version"
             else none
       | .failed m =>
         match lastOutcome script 0 inv with
@@ -453,6 +485,13 @@ def servedCheck (rules : List Rule) (linked : Rule → Bool) (desired : Ver) (ob
           else if versionsMatched (endOf a (inv.map (·.rule))) desired then none
           else some "failed-before-the-end-of-the-chain-though-every-run-succeeded"
   | _, _ => none
+
+/-- NOT the code: `ExtractAPIVersions` with one `TypeMeta` shared by all objects (declared before the
+loop). Only for `Props/C15.shared_decode_witness`: what the per-object zero value is needed for. -/
+def extractVersionsShared (objs : List RawObj) : List Ver :=
+  (objs.foldl (fun (st : Ver × List Ver) o =>
+    let a := unmarshalVer st.1 o
+    (a, if st.2.contains a then st.2 else st.2 ++ [a])) ([], [])).2
 
 /-! ## the unrepaired variants (witnesses only) -/
 namespace Unrepaired
